@@ -23,7 +23,23 @@ Streams (in this order):
      again.  Every returned state must satisfy the CURRENT configuration's clauses; for a fixed seed the
      result must be the one a FRESH object in the current configuration returns, and the one the model
      replays from the fresh object's distribution.  A directed corpus of histories runs first.
-  3. generated single-object cases (tape replay + clauses; seeds drawn from the boundary pool as well),
+  3. global settings — the process-global `lightworks.settings.sampler_probability_threshold` (default 1e-9)
+     is a configuration dimension: cases (directed corpus first, then generated) are run with it raised to
+     1e-6, 1e-3, 1e-2, 5e-2 (always restored in a try/finally), so that the stored output distribution is
+     visibly SUB-NORMALISED.  Every sampling method of the Sampler and the QuickSampler must still draw from the
+     normalised distribution of the states that survive the truncation: tape replay on the model (which
+     normalises the implementation's own distribution), `continuous_distribution` = normalised cumulative sums
+     ending at 1 (before and after the N-inputs method renormalised the stored distribution), and chi-square
+     tests of the single-shot methods on these small supports.  A quarter of the generated histories run under
+     a raised threshold as well.  sample_N_inputs refuses (ValueError "significantly deviated") a distribution
+     that misses more than 1% — counted, and expected exactly then.
+  4. worlds          — DEFAULT COMPONENTS are per object: several Samplers / QuickSamplers built with defaults only
+     (detector=None, source=None, backend=None, post_select=None) live side by side; one is tuned IN PLACE
+     through its accessor (`s.detector.efficiency = …`, `s.source.brightness = …`, `s.backend.backend = …`,
+     `q.post_select.add(…)` when the default supports it) or gets a component replaced; every member — built before
+     or after the tuning — must read and sample like a fresh object built with EXPLICIT components in the
+     configuration it is supposed to have, and like the model's replay.  Part of the history stream (kind "world").
+  5. generated single-object cases (tape replay + clauses; seeds drawn from the boundary pool as well),
      the post-selection-object reuse probes, and the chi-square tests (single objects and the long-lived
      objects at the end of a history).
 """
@@ -32,6 +48,7 @@ from __future__ import annotations
 
 import json
 import random as pyrandom
+from contextlib import contextmanager
 from fractions import Fraction
 
 import numpy as np
@@ -58,6 +75,55 @@ QPS_SIG = {"object": "QuickSampler", "postselection_mutated_in_place": True}
 
 def fr(x) -> str:
     return frac_str(Fraction(x))
+
+
+# --------------------------------------------------------------------------- the global settings
+
+THR_DEFAULT = lw.settings.sampler_probability_threshold  # as found at import: what every other stream must see
+THRESHOLDS = [1e-6, 1e-3, 1e-2, 5e-2]
+GUARD = Fraction(1, 100)  # sample_N_inputs refuses a distribution whose total deviates more than this from 1
+CD_TOL = 1e-12
+
+
+@contextmanager
+def threshold(thr):
+    """`lightworks.settings.sampler_probability_threshold` (process-global) raised for the body only"""
+    if thr is None:
+        yield
+        return
+    old = lw.settings.sampler_probability_threshold
+    lw.settings.sampler_probability_threshold = thr
+    try:
+        yield
+    finally:
+        lw.settings.sampler_probability_threshold = old
+
+
+def total_of(pd) -> Fraction:
+    return sum((Fraction(float(v)) for v in pd.values()), Fraction(0))
+
+
+def cd_problem(obj, name: str):
+    """`continuous_distribution` is what the single-shot method walks through: it has to be the cumulative
+    NORMALISED distribution of `probability_distribution` — same states, same order, ending at 1"""
+    pd = obj.probability_distribution
+    cd = obj.continuous_distribution
+    if [k.s for k in cd] != [k.s for k in pd]:
+        return f"oracle: {name}.continuous_distribution lists other states (or another order) than probability_distribution"
+    tot = total_of(pd)
+    acc, last = Fraction(0), None
+    for k, v in cd.items():
+        acc += Fraction(float(pd[k]))
+        last = float(v)
+        if abs(last - float(acc / tot)) > CD_TOL:
+            break
+    else:
+        return None
+    end = float(list(cd.values())[-1])
+    return (f"oracle: {name}.continuous_distribution is not the normalised cumulative distribution of "
+            f"probability_distribution (which sums to {float(tot)!r}): at {k.s} it reads {last!r} instead of "
+            f"{float(acc / tot)!r}; it ends at {end!r}" + ("" if abs(end - 1) <= CD_TOL else " instead of 1") +
+            f" [sampler_probability_threshold={lw.settings.sampler_probability_threshold!r}]")
 
 
 def contract_selftest(ctx: Ctx) -> None:
